@@ -61,9 +61,12 @@ def generate(seed, tier="quick", **kw):
                 o2[f] = not o2[f]
         if r.random() < 0.6:
             o2["words"] = list(o["words"]) if o["words"] and r.random() < 0.6 else ["kiwi", "zzother"]
-            if r.random() < 0.5:
-                o2["words"] = o2["words"] + [r.choice(["via", "description", "remark", "permit", "hostname", "contact", "core"])]
-                if r.random() < 0.7:
+            if r.random() < 0.7:
+                # ... preferably one that shares a line with one of this run's own words
+                near = sorted({t for ln in pool if any(sg[0] == "w" for sg in ln["segs"]) for sg in ln["segs"] if sg[0] == "lit"
+                               for t in sg[1].split() if t.isalpha() and t.isascii() and len(t) >= 3})
+                o2["words"] = o2["words"] + [r.choice(near or ["via", "description", "remark", "permit", "hostname", "contact", "core"])]
+                if r.random() < 0.85:
                     o2["salt"] = o["salt"]
         if not (o2["pwd"] or o2["ip"] or o2["words"] or o2["as"]):
             o2["ip"] = True
